@@ -5,8 +5,10 @@ package main
 
 import (
 	"fmt"
+	"go/token"
 	"go/types"
 	"regexp"
+	"sort"
 	"strings"
 
 	"golang.org/x/tools/go/ssa"
@@ -381,5 +383,219 @@ func (x *Exec) havocGuardedBy(s *State, mu Val) {
 		nv := Var(x.eng.fresh("relock$"+f.Name()), srt)
 		x.assumeTyped(s, nv, f.Type())
 		x.heapSet(s, key, Store(h, mu.LV.Ref, nv))
+	}
+}
+
+// ---------- lock acquisition summaries (self-deadlock detection) ----------
+
+// acqEntry: the function always (on every returning path) acquires the mutex field `field` of the
+// object passed as parameter idx (free=false) or captured as free variable idx (free=true).
+type acqEntry struct {
+	free  bool
+	idx   int
+	field string
+	mode  string
+	ptr   bool       // the field holds a *sync.(RW)Mutex (the lock is identified by the pointer value)
+	styp  types.Type // struct type holding the field
+	fidx  int
+	deref bool // the object is reached through one load of the parameter / captured cell
+}
+
+var lockFuncs = map[string]string{
+	"(*sync.Mutex).Lock": "W", "(*sync.RWMutex).Lock": "W", "(*sync.RWMutex).RLock": "R",
+}
+
+// acqSummary computes, by a static scan of the SSA (memoised, recursion-guarded), which mutexes of
+// its parameters / captured variables fn certainly acquires: directly, or through a static call
+// that passes the same parameter on. Only acquisitions in blocks that dominate every return are
+// counted, so a conditional acquisition never produces an entry.
+func (e *Engine) acqSummary(fn *ssa.Function) []acqEntry {
+	if e.acqMemo == nil {
+		e.acqMemo = map[*ssa.Function][]acqEntry{}
+		e.acqBusy = map[*ssa.Function]bool{}
+	}
+	if r, ok := e.acqMemo[fn]; ok {
+		return r
+	}
+	if fn == nil || len(fn.Blocks) == 0 || e.acqBusy[fn] {
+		return nil
+	}
+	e.acqBusy[fn] = true
+	defer delete(e.acqBusy, fn)
+	var rets []*ssa.BasicBlock
+	for _, b := range fn.Blocks {
+		if b == fn.Recover {
+			continue // reached only through a recovered panic
+		}
+		if len(b.Instrs) > 0 {
+			if _, ok := b.Instrs[len(b.Instrs)-1].(*ssa.Return); ok {
+				rets = append(rets, b)
+			}
+		}
+	}
+	always := func(b *ssa.BasicBlock) bool {
+		if len(rets) == 0 {
+			return false
+		}
+		for _, r := range rets {
+			if !b.Dominates(r) {
+				return false
+			}
+		}
+		return true
+	}
+	// origin of a value: parameter / free variable (possibly through one load of a captured cell)
+	origin := func(v ssa.Value) (bool, int, bool, bool) {
+		deref := false
+		if u, ok := v.(*ssa.UnOp); ok && u.Op == token.MUL {
+			v, deref = u.X, true
+		}
+		switch p := v.(type) {
+		case *ssa.Parameter:
+			for i, q := range fn.Params {
+				if q == p {
+					return false, i, deref, true
+				}
+			}
+		case *ssa.FreeVar:
+			for i, q := range fn.FreeVars {
+				if q == p {
+					return true, i, deref, true
+				}
+			}
+		}
+		return false, 0, false, false
+	}
+	var out []acqEntry
+	seen := map[acqEntry]bool{}
+	add := func(a acqEntry) {
+		if !seen[a] {
+			seen[a] = true
+			out = append(out, a)
+		}
+	}
+	for _, b := range fn.Blocks {
+		if !always(b) {
+			continue
+		}
+		for _, in := range b.Instrs {
+			c, ok := in.(*ssa.Call)
+			if !ok {
+				continue
+			}
+			callee := c.Call.StaticCallee()
+			if callee == nil {
+				continue
+			}
+			if mode, isLock := lockFuncs[callee.String()]; isLock && len(c.Call.Args) == 1 {
+				arg, ptr := c.Call.Args[0], false
+				if u, ok := arg.(*ssa.UnOp); ok && u.Op == token.MUL {
+					arg, ptr = u.X, true
+				}
+				if fa, ok := arg.(*ssa.FieldAddr); ok {
+					if free, idx, deref, ok := origin(fa.X); ok {
+						styp := fa.X.Type().Underlying().(*types.Pointer).Elem()
+						st := styp.Underlying().(*types.Struct)
+						add(acqEntry{free, idx, fieldName(st.Field(fa.Field), fa.Field), mode, ptr, styp, fa.Field, deref})
+					}
+				}
+				continue
+			}
+			if len(callee.Blocks) == 0 {
+				continue
+			}
+			for _, a := range e.acqSummary(callee) {
+				if a.free || a.deref || a.idx >= len(c.Call.Args) {
+					continue
+				}
+				if free, idx, deref, ok := origin(c.Call.Args[a.idx]); ok {
+					add(acqEntry{free, idx, a.field, a.mode, a.ptr, a.styp, a.fidx, deref})
+				}
+			}
+		}
+	}
+	e.acqMemo[fn] = out
+	return out
+}
+
+// acqLockID: the identity (as used in State.locks) of the mutex entry a names in object obj.
+func (x *Exec) acqLockID(s *State, obj *Term, a acqEntry) string {
+	if !a.ptr {
+		return canonID(obj) + "." + a.field
+	}
+	st := a.styp.Underlying().(*types.Struct)
+	h := x.heapGet(s, x.fieldKey(a.styp, st, a.fidx), SArr(SInt, SInt))
+	return canonID(Select(h, obj))
+}
+
+// checkReacquire: a callee that is used by contract (its body is not followed) acquires mutexes of
+// its arguments; acquiring one this goroutine already holds is a self-deadlock (sync.Mutex is not
+// re-entrant, and a recursive RLock blocks for ever once a writer is queued).
+func (x *Exec) checkReacquire(s *State, f *ssa.Function, args []Val, site string) {
+	for _, a := range x.eng.acqSummary(f) {
+		if a.free || a.deref || a.idx >= len(args) || args[a.idx].T == nil {
+			continue
+		}
+		id := x.acqLockID(s, args[a.idx].T, a)
+		if held, ok := s.locks[id]; ok {
+			x.emit(s, "lock", "reacquire:"+x.fnName(f)+"@"+site, TFalse, fmt.Sprintf("%s acquires %s (%s), which the caller already holds (%s): self-deadlock", x.fnName(f), id, a.mode, held))
+		}
+	}
+}
+
+// noteSpawn records which mutexes a goroutine started here certainly acquires.
+func (x *Exec) noteSpawn(s *State, fv Val, args []Val) {
+	if fv.Fn == nil {
+		return
+	}
+	for _, a := range x.eng.acqSummary(fv.Fn) {
+		var v Val
+		if a.free {
+			if a.idx >= len(fv.Bindings) {
+				continue
+			}
+			v = fv.Bindings[a.idx]
+		} else {
+			if a.idx >= len(args) {
+				continue
+			}
+			v = args[a.idx]
+		}
+		t := v.T
+		if a.deref {
+			// captured by reference (or passed as a pointer to the variable): read the cell's current content
+			t = nil
+			if v.T != nil || v.LV != nil {
+				if c, err := x.load(s, x.lvalueOf(v, types.NewPointer(a.styp))); err == nil {
+					t = c
+				}
+			}
+		}
+		if t == nil {
+			continue
+		}
+		if s.spawned == nil {
+			s.spawned = map[string]string{}
+		}
+		s.spawned[x.acqLockID(s, t, a)] = x.fnName(fv.Fn)
+	}
+}
+
+// checkAwait: this goroutine blocks (channel receive, select, WaitGroup.Wait) while holding a mutex
+// that a goroutine it spawned earlier on this path acquires: if what it waits for is that goroutine,
+// neither can proceed once a writer is queued (or at once, for exclusive locks).
+func (x *Exec) checkAwait(s *State, site string) {
+	if site == "" {
+		site = "wait"
+	}
+	var ids []string
+	for id := range s.spawned {
+		if _, held := s.locks[id]; held {
+			ids = append(ids, id)
+		}
+	}
+	sort.Strings(ids)
+	for _, id := range ids {
+		x.emit(s, "lock", "awaits-goroutine-under-lock:"+id+"@"+site, TFalse, fmt.Sprintf("blocks while holding %s (%s); the goroutine %s spawned above acquires it: recursive read locking deadlocks once a writer waits", id, s.locks[id], s.spawned[id]))
 	}
 }
